@@ -5,6 +5,7 @@ import a10
 import grammar
 from astlib import calls, find_fn, fns_in_file, last, method_calls, pat_paths, render, site, strip, walk
 from pathcond import conditions_to, fact_str, facts_str, let_env
+import sgrep
 
 TITLE = "SSA"
 LEVEL_TEXT = (
@@ -55,7 +56,10 @@ def rule_phi_insertion(ctx):
     vw = le.get("variables_written")
     # variables written by the *current* block
     txt = render(fn["body"]).replace(" ", "")
-    ctx.check(R, "insert_phi_statements/variables-of-the-current-block", "letcurrent_block=&basic_blocks[current_index];current_block.variables_written().clone()" in txt, "", site(SSA, fn))
+    envl = sgrep.lets(fn["body"])
+    vwb = [b for _n, b in sgrep.find(fn["body"], "basic_blocks[__i].variables_written()", envl)]
+    idxv = [b for _n, b in sgrep.find(fn["body"], "while let Some(__i) = work_list.pop() { __body }")] or [{"__i": "current_index"}]
+    ctx.check(R, "insert_phi_statements/variables-of-the-current-block", any(b["__i"] == "current_index" for b in vwb) or any(b["__i"] in [x.get("__i") for x in idxv] for b in vwb), "the written variables must be those of the block just taken from the work list: %s" % vwb, site(SSA, fn))
     fb = [n for n in walk(fn["body"]) if n["k"] == "Local" and n["pat"]["k"] == "PIdent" and n["pat"]["name"] == "frontier_block"]
     ctx.check(R, "insert_phi_statements/frontier-block-lookup", len(fb) == 1 and render(strip(fb[0]["init"])).replace(" ", "") == "basic_blocks[frontier_index]", render(fb[0]["init"]) if fb else "?", site(SSA, fn))
     conts = [n for n in walk(fn["body"]) if n["k"] in ("Continue", "Break", "Return")]
@@ -64,15 +68,18 @@ def rule_phi_insertion(ctx):
     hp = find_fn(TR, "has_phi_statement")
     if hp is not None:
         t = render(hp["body"]).replace(" ", "")
-        ctx.check(R, "SSABasicBlock::has_phi_statement", t == "{self.statements().any(|stmt|stmt.is_phi_statement_for(var))}", t, site(TR, hp))
+        pv = sgrep.params(hp)
+        ctx.check(R, "SSABasicBlock::has_phi_statement", sgrep.has(hp["body"], "self.statements().any(|__s| __s.is_phi_statement_for(__v))", sgrep.lets(hp["body"]), {"__v": pv[0]} if pv else None), t, site(TR, hp))
     ip = find_fn(TR, "insert_phi_statement")
     if ip is not None:
         t = render(ip["body"]).replace(" ", "")
-        ctx.check(R, "SSABasicBlock::insert_phi_statement/prepends", t == "{self.prepend_statement(SSAStatement::new_phi_statement(var,env));}", t, site(TR, ip))
+        pv = sgrep.params(ip)
+        ctx.check(R, "SSABasicBlock::insert_phi_statement/prepends", sgrep.has(ip["body"], "self.prepend_statement(SSAStatement::new_phi_statement(__v, __e))", sgrep.lets(ip["body"]), {"__v": pv[0], "__e": pv[1]} if len(pv) == 2 else None), t, site(TR, ip))
     vwf = find_fn(TR, "variables_written", "trait SSABasicBlock")
     if vwf is not None:
         t = render(vwf["body"]).replace(" ", "")
-        ctx.check(R, "SSABasicBlock::variables_written/all-statements", "self.statements().fold(HashSet::new()" in t and "vars.extend(stmt.variables_written())" in t, t[:160], site(TR, vwf))
+        okk, how = sgrep.each_calls(vwf["body"], "self.statements()", "variables_written", sgrep.lets(vwf["body"]))
+        ctx.check(R, "SSABasicBlock::variables_written/all-statements", okk and sgrep.has(vwf["body"], "__acc.extend(__x.variables_written())"), "%s: %s" % (how, t[:160]), site(TR, vwf))
     # renaming order
     fn = find_fn(SSA, "insert_ssa_variables_impl")
     if fn is None:
@@ -98,16 +105,20 @@ def rule_phi_insertion(ctx):
     top = find_fn(SSA, "insert_ssa_variables")
     if top is not None:
         t = render(top["body"]).replace(" ", "")
-        ctx.check(R, "insert_ssa_variables/starts-at-entry-block", "insert_ssa_variables_impl(0,basic_blocks,dominator_tree,env)?" in t, t[:160], site(SSA, top))
+        pv = sgrep.params(top)
+        ctx.check(R, "insert_ssa_variables/starts-at-entry-block", sgrep.has(top["body"], "insert_ssa_variables_impl::<Cfg>(0, __b, __d, __e)?", None, {"__b": pv[0], "__d": pv[1], "__e": pv[2]} if len(pv) == 3 else None), t[:160], site(SSA, top))
     up = find_fn(TR, "update_phi_statements")
     if up is not None:
         t = render(up["body"]).replace(" ", "")
-        ok = "forstmtinself.statements_mut(){ifstmt.is_phi_statement(){stmt.ensure_phi_argument(env);}else{break;}}" in t
+        okk, how = sgrep.each_calls(up["body"], "self.statements_mut()", "ensure_phi_argument", None, allow_guard=lambda c: c[0] == "if" and c[2] and render(c[1]).replace(" ", "").endswith(".is_phi_statement()") or (c[0] == "notall" and all(x[0] == "if" and not x[2] and render(x[1]).replace(" ", "").endswith(".is_phi_statement()") for x in c[1])))
+        stops = [b for b in walk(up["body"]) if b["k"] in ("Break", "Return")]
+        ok = okk and all(any(fact_str(c).replace(" ", "").endswith(".is_phi_statement()") and fact_str(c).startswith("!") for c in (conditions_to(up["body"], b) or [])) for b in stops)
         ctx.check(R, "SSABasicBlock::update_phi_statements/all-leading-phis", ok, t[:200], site(TR, up))
     isv = find_fn(TR, "insert_ssa_variables", "trait SSABasicBlock")
     if isv is not None:
         t = render(isv["body"]).replace(" ", "")
-        ctx.check(R, "SSABasicBlock::insert_ssa_variables/every-statement-in-order", "forstmtinself.statements_mut(){stmt.insert_ssa_variables(env)?;}" in t, t[:160], site(TR, isv))
+        okk, how = sgrep.each_calls(isv["body"], "self.statements_mut()", "insert_ssa_variables")
+        ctx.check(R, "SSABasicBlock::insert_ssa_variables/every-statement-in-order", okk, "%s: %s" % (how, t[:160]), site(TR, isv))
 
 
 def rule_pipeline(ctx):
@@ -133,8 +144,8 @@ def rule_pipeline(ctx):
     if all(l is not None for l in lines):
         ctx.check(R, "into_ssa/order", lines == sorted(lines) and len(set(lines)) == len(lines), "call lines %s" % lines, site(CFG, fn))
     t = render(fn["body"]).replace(" ", "")
-    ctx.check(R, "into_ssa/parameters-are-version-0", "fornameinself.parameters.iter_mut(){*name=name.with_version(0);}" in t, "", site(CFG, fn))
-    ctx.check(R, "into_ssa/declarations-replaced", "self.declarations=ssa_impl::update_declarations(&mutself.basic_blocks,&self.parameters,&env);" in t, "", site(CFG, fn))
+    ctx.check(R, "into_ssa/parameters-are-version-0", sgrep.has(fn["body"], "for __n in self.parameters.iter_mut() { *__n = __n.with_version(0); }") or sgrep.has(fn["body"], "self.parameters.iter_mut().for_each(|__n| *__n = __n.with_version(0))"), "", site(CFG, fn))
+    ctx.check(R, "into_ssa/declarations-replaced", sgrep.has(fn["body"], "self.declarations = ssa_impl::update_declarations(&mut self.basic_blocks, &self.parameters, __env)", sgrep.lets(fn["body"])), "", site(CFG, fn))
 
 
 def rule_phis_and_locals(ctx):
@@ -160,11 +171,27 @@ def rule_phis_and_locals(ctx):
     f = find_fn(SI, "is_phi_statement")
     if f is not None:
         t = render(f["body"]).replace(" ", "")
-        ctx.check(R, "is_phi_statement", "matches!(self,Substitution{rhe:Phi{..},..})" in t, t[:120], site(SI, f))
+        okk = "matches!(self,Substitution{rhe:Phi{..},..})" in t
+        if not okk:
+            # match / if-let forms
+            pats = [a for m in walk(f["body"]) if m["k"] == "Match" for a in m["arms"]] + [{"pat": c["cond"]["pat"], "body": c["then"]} for c in walk(f["body"]) if c["k"] == "If" and c["cond"]["k"] == "Let"]
+            okk = any(render(a["pat"]).replace(" ", "") in ("Substitution{rhe:Phi{..},..}",) and render(strip(a["body"])) == "true" for a in pats)
+        ctx.check(R, "is_phi_statement", okk, t[:120], site(SI, f))
     f = find_fn(SI, "new_phi_statement")
     if f is not None:
         t = render(f["body"]).replace(" ", "")
-        ctx.check(R, "new_phi_statement/unversioned-target-empty-args", "var:name.without_version()" in t and "args:Vec::new()" in t and "op:AssignLocalOrComponent" in t, t[:200], site(SI, f))
+        pv = sgrep.params(f)
+        envl = sgrep.lets(f["body"])
+        st = [n for n in walk(f["body"]) if n["k"] == "Struct" and last(n["path"]) == "Substitution"]
+        okk = False
+        if len(st) == 1 and pv:
+            fl = {x["name"]: x["e"] for x in st[0]["fields"]}
+            rhe = strip(fl.get("rhe", {"k": "?"}))
+            if rhe.get("k") == "Path" and rhe["path"] in envl:
+                rhe = strip(envl[rhe["path"]])
+            args_empty = rhe.get("k") == "Struct" and last(rhe["path"]) == "Phi" and any(x["name"] == "args" and render(strip(x["e"])).replace(" ", "") in ("Vec::new()", "vec!()", "Vec::default()") for x in rhe["fields"])
+            okk = render(strip(fl.get("var", {"k": "?"}))).replace(" ", "") == "%s.without_version()" % pv[0] and last(render(strip(fl.get("op", {"k": "?"})))) == "AssignLocalOrComponent" and args_empty
+        ctx.check(R, "new_phi_statement/unversioned-target-empty-args", okk, t[:200], site(SI, f))
     f = find_fn(SI, "ensure_phi_argument")
     if f is not None:
         push = list(method_calls(f["body"], "push"))
@@ -317,8 +344,13 @@ def rule_declarations(ctx):
     adds = list(method_calls(f["body"], "add_declaration"))
     ctx.floor(R, "add_declaration sites", len(adds), 3)
     t = render(f["body"]).replace(" ", "")
-    ctx.check(R, "update_declarations/parameters-all-versions", "fornameinparameters.iter(){forversioninenv.get_version_range(name)" in t, "", site(SI, f))
-    ctx.check(R, "update_declarations/locals-all-versions", "env.get_version_range(name).unwrap_or(0..1)" in t and "forversioninversions" in t, "", site(SI, f))
+    envl = sgrep.lets(f["body"])
+    okp = False
+    for n, b in sgrep.find(f["body"], "for __n in parameters.iter() { __body }"):
+        okp = okp or any(bb.get("__m") == b["__n"] for _x, bb in sgrep.find(n, "for __v in env.get_version_range(__m).expect(__msg) { __inner }")) or any(bb.get("__m") == b["__n"] for _x, bb in sgrep.find(n, "for __v in env.get_version_range(__m).unwrap() { __inner }"))
+    ctx.check(R, "update_declarations/parameters-all-versions", okp, "every version in the parameter's version range gets a declaration", site(SI, f))
+    okl = sgrep.has(f["body"], "env.get_version_range(__n).unwrap_or(0..1)") and (sgrep.has(f["body"], "for __v in __vs { __inner }", None) )
+    ctx.check(R, "update_declarations/locals-all-versions", okl, "", site(SI, f))
     for a in adds:
         cs = [fact_str(c).replace(" ", "") for c in (conditions_to(f["body"], a) or [])]
         arg = render(a["args"][0]).replace(" ", "")
